@@ -115,4 +115,34 @@ theorem parseDataReal_of_rejects (scale : ScaleFn) (cyc : CycFn) (b : Str) (h : 
     parseDataReal scale cyc b = parseLegacy scale cyc b :=
   parseData_of_pb_rejects _ scale cyc b h
 
+/-! ### two more documents that never reach their parser -/
+theorem concatCount_wf : concatCountDoc.wf = true := by decide
+
+theorem concatCount_pb : parseUncompressed (printCount concatCountDoc) = .err errConcatProfile := by decide
+
+theorem parseDataReal_concatCount (scale : ScaleFn) (cyc : CycFn) :
+    parseDataReal scale cyc (printCount concatCountDoc) = .err errConcatProfile := by
+  simp [parseDataReal, parseData, concatCount_pb, errConcatProfile, errNoData]
+
+theorem heapNamedThread_wf : heapNamedThreadDoc.wf = true := by decide
+theorem heapNamedThread_chain : heapNamedThreadDoc.chainOK = false := by decide
+
+set_option maxRecDepth 20000 in
+theorem parseLegacy_heapNamedThread (scale : ScaleFn) (cyc : CycFn) :
+    parseLegacy scale cyc (printThread heapNamedThreadDoc) = .err "unexpected number of sample values" := by
+  have h1 : parseCPU (printThread heapNamedThreadDoc) = .err "unrecognized" := by
+    have : printThread heapNamedThreadDoc = 45 :: (printThread heapNamedThreadDoc).tail := by decide
+    rw [this]; exact parseCPU_text 45 _ (by decide)
+  have hl : heapNamedThreadDoc.lines = [heapNamedThreadRec.headerLine, asc "   0x10", noStackLine 0] := by decide
+  have hh : (searchRe matchHeapHeaderAt heapNamedThreadRec.headerLine).isSome = true := by decide
+  have hp : parseHeapHeader heapNamedThreadRec.headerLine = .ok (true, 1, true) := by decide
+  have hs : searchRe matchHeapSampleAt (trimSpace (asc "   0x10")) = none := by decide
+  have h3 : isSpaceOrComment (trimSpace (asc "   0x10")) = false := by decide
+  have h4 : isMemoryMapSentinel (trimSpace (asc "   0x10")) = false := by decide
+  have h2 : parseHeap scale (printThread heapNamedThreadDoc) = .err "unexpected number of sample values" := by
+    unfold parseHeap
+    rw [splitLines_printThread _ heapNamedThread_wf, hl]
+    simp [parseHeapLines, hh, hp, heapLoop, h3, h4, parseHeapSample, hs]
+  simp [parseLegacy, h1, h2]
+
 end PV.Legacy
